@@ -43,7 +43,7 @@ Next ==
   /\ \E c \in CallsFrom(sh) :
        LET run == RunCall(sh, c, Fuel)
            r   == IF run.hang THEN [t |-> "hang"] ELSE run.me.ret
-           v   == CallVerdict(sh, c, r, run.sh, sg, [ret |-> r, sh |-> run.sh])
+           v   == CallVerdict(sh, c, r, run.sh, sg, [ret |-> r, sh |-> run.sh, pre |-> sh])
        IN /\ sh' = run.sh /\ sg' = v.sg /\ chk' = v.bad /\ lastkf' = v.kf /\ hung' = run.hang
           /\ hist' = Append(hist, c)
 
